@@ -19,12 +19,13 @@ def setup():
 
 
 def dispatch(pid, tier):
-    from . import layout, graph, vft, inherit
+    from . import layout, graph, vft, inherit, enums
     table = {
         "C04": lambda: vft.run_vft("C04", tier),
         "C16": lambda: vft.run_vft("C16", tier),
         "C06": lambda: inherit.run_inherit("C06", tier),
         "C07": lambda: inherit.run_inherit("C07", tier),
+        "C08": lambda: enums.run_enum("C08", tier),
         "C09": lambda: graph.run_graph("C09", tier),
         "C10": lambda: graph.run_graph("C10", tier),
         "C01": lambda: layout.run_layout("C01", tier),
